@@ -16,6 +16,30 @@ import (
 //       method receiver (or the *closureManager parameter),
 //   (2) every local of LinkMessage / LinkStream that is assigned (`=`, `++`, op=) inside a
 //       function literal, i.e. after it may have been captured by another goroutine.
+// stateFacts: the field TYPES of the structs that hold panrpc's state, in declaration order.  The models'
+// state spaces are built from exactly these; a new field (a cache, a counter, a semaphore, a second lock) is
+// state the models do not have.
+func stateFacts(s *src, f *facts) {
+	for _, st := range []struct{ fact, name string }{
+		{"stateRegistry", "Registry"}, {"stateClosureManager", "closureManager"},
+		{"stateBroadcaster", "Broadcaster"}, {"stateChannel", "channelWithContext"}, {"stateWrappedChild", "wrappedChild"},
+	} {
+		var tys []string
+		if d := s.structDecl(st.name); d != nil && d.Fields != nil {
+			for _, fl := range d.Fields.List {
+				n := len(fl.Names)
+				if n == 0 {
+					n = 1
+				}
+				for i := 0; i < n; i++ {
+					tys = append(tys, strings.Join(strings.Fields(s.str(fl.Type)), " "))
+				}
+			}
+		}
+		f.add(st.fact, tys, "field types of "+st.name)
+	}
+}
+
 func accessFacts(s *src, f *facts) {
 	type acc struct {
 		v, site   string
